@@ -406,6 +406,17 @@ func runC07(w *mon.W) {
 		// every second table puts one codon of every amino acid at exactly 10% and another just above (10.1..11%)
 		// and every third one gives every amino acid shares of the form x.99 %
 		tbl, snap := reweightedTable(tid, tr, false, t%3 == 1, t%3 == 2)
+		if t%6 == 3 {
+			// a table of a whole genome: the same proportions with counts in the tens and hundreds of thousands
+			f := 300 + tr.Intn(1500)
+			for ai := range tbl.AminoAcids {
+				for ci := range tbl.AminoAcids[ai].Codons {
+					tbl.AminoAcids[ai].Codons[ci].Weight *= f
+				}
+			}
+			snap = snapshot(tbl)
+			w.Add("proportionality_tables_with_genome_sized_counts", 1)
+		}
 		if t%6 == 5 {
 			// a default table with uniform weights: every synonym is eligible, also the seventh and eighth of serine
 			tid = []int{5, 12, 9, 24}[(t/6)%4]
